@@ -1,6 +1,6 @@
 (* Props_C10.v — the directory is a valid layout equal to the API state.  Model: Reg.v (requests), GC.v (collections,
    restarts); what the directory of a repository holds = its blobs, the top-level entries of its index and the conversion mark. *)
-From Olareg Require Import Base Index IndexInv Reg RegProofs RegInv TagProofs GC GCProofs LayoutProofs.
+From Olareg Require Import Base Index IndexInv Reg RegProofs RegInv TagProofs GC GCProofs LayoutProofs KindProofs.
 Local Open Scope list_scope.
 
 (* blobs/<alg>/<hex>: in every state reachable by client requests every stored blob is stored under the digest of its bytes ... *)
@@ -42,3 +42,16 @@ Proof. exact idx_ok_reachable. Qed.
 Theorem C10_tags_unique_gc : forall cfg pol E s g, IdxOK s -> IdxOK (fst (gstep cfg pol E s g)).
 Proof. exact gstep_idx_ok. Qed.
 Print Assumptions C10_tags_unique_gc.
+
+(* memory store = directory store: a client request all of whose store actions are neutral (the repository names are ones the
+   directory store accepts; no upload is closed with a digest mismatch) gets the same answer and leaves the same state on both *)
+Theorem C10_store_type_indifferent : forall cfg E s q,
+  match q with QRestart => False | _ => True end ->
+  neutral_run cfg E (handler cfg E q) s ->
+  step (with_kind KMem cfg) E s q = step (with_kind KDir cfg) E s q.
+Proof. exact request_kind_indifferent. Qed.
+Print Assumptions C10_store_type_indifferent.
+
+(* non-vacuity: a tag listing on repository "a" is such a request in every state *)
+Example C10_neutral_example : forall cfg E s, neutral_run cfg E (handler cfg E (QTagList "a" "" "")) s.
+Proof. intros. simpl. repeat split. Qed.
